@@ -11,6 +11,8 @@ from props import CONES
 
 # which boolean clauses decide which property (the same definitions as in the theorems)
 STATE_CLAUSES = {
+    "C04": ["output_done"],
+    "C18": [],
     "C01": ["feasible", "busy_op", "proc_inner", "past"],
     "C02": ["busy_op", "no_overdue"],
     "C03": ["placement", "loc", "mach_hold", "agv_hold", "claims", "flags", "agv_phase"],
@@ -25,6 +27,8 @@ STATE_CLAUSES = {
     "C20": [],
 }
 EVENT_CLAUSES = {
+    "C04": [],
+    "C18": [],
     "C01": ["clock"],
     "C02": ["work", "machine_outage", "machine_release", "due", "clock"],
     "C03": ["stores"],
@@ -38,6 +42,8 @@ EVENT_CLAUSES = {
     "C20": [],
 }
 PROFILES = {
+    "C04": ("mixed", "transport", "full", "classic"),
+    "C18": ("mixed", "transport", "buffers", "classic"),
     "C01": ("mixed", "full", "buffers", "stoch"),
     "C02": ("full", "stoch", "mixed", "full"),
     "C03": ("mixed", "buffers", "transport", "full"),
@@ -60,6 +66,8 @@ def _worker(args):
     import trace
     tracer = trace.Tracer(keep_objects=bool(extra.get("keep_objects")))
     tracer.want_pre = want_events
+    tracer.record_mw = bool(extra.get("record_mw"))
+    tracer.record_env = bool(extra.get("record_env"))
     hook = None
     state = {}
     if extra.get("hook"):
@@ -100,6 +108,18 @@ def _worker(args):
         groups, where = sxdiff.attribute(r.out, m)
         out["disagreements"].append({"groups": sorted(groups), "where": where,
                                      "replay": replay_of(k, impl=r.out[:4000], model=m[:4000])})
+    if tracer.record_mw:
+        out["mw_records"] = len(tracer.mw_records)
+        for k, rec, m in trace.replay_mw(tracer.mw_records, drv)[:20]:
+            out["disagreements"].append({"groups": ["middleware"], "where": "middleware.step #%d" % k,
+                                         "replay": {"pre_result": rec[1][:3000], "pre_mw": rec[2], "action": rec[3],
+                                                    "impl": rec[4][:3000], "model": m[:3000]}})
+    if tracer.record_env:
+        out["env_records"] = len(tracer.env_records)
+        for k, rec, m in trace.replay_env(tracer.env_records, drv)[:20]:
+            out["disagreements"].append({"groups": ["env"], "where": "env.step #%d" % k,
+                                         "replay": {"pre_env": rec[1][:3000], "action": rec[2], "impl": rec[3][-1500:],
+                                                    "model": m[-1500:]}})
     # 2. monitors
     st = {}
     sv = trace.monitor_states(tracer.records, drv, which=set(STATE_CLAUSES.get(prop, [])) or {"-"}, stats=st)
@@ -294,6 +314,8 @@ def sm_check(ctx, n_quick=160, n_thorough=1500, custom_p=0.15, extra=None, worke
     for o in outs:
         for key in ("episodes", "records", "events", "states", "micro", "distinct"):
             tot[key] += o[key]
+        tot["mw_records"] += o.get("mw_records", 0)
+        tot["env_records"] += o.get("env_records", 0)
         ends.update(o["ends"])
         feats.update(o["features"])
         kinds.update(o["kinds"])
@@ -319,6 +341,7 @@ def sm_check(ctx, n_quick=160, n_thorough=1500, custom_p=0.15, extra=None, worke
         "states_monitored": tot["states"], "events_monitored": tot["events"],
         "state_clauses": STATE_CLAUSES.get(prop, []), "event_clauses": EVENT_CLAUSES.get(prop, []),
         "disagreements_total": tot["disagreements"],
+        "middleware_steps_replayed": tot["mw_records"], "env_steps_replayed": tot["env_records"],
         "episode_end_histogram": dict(ends), "input_distribution": dict(feats),
         "transition_kinds_seen": dict(kinds),
     })
@@ -395,7 +418,28 @@ def c20(ctx):
                            "in the harness (testing), not by a theorem: Gallina values are immutable")
 
 
+def _merge_hook(ctx, prefix):
+    for h in ctx.hook_outputs:
+        for v in (h or {}).get("violations", []):
+            ctx.violations.append(v)
+        for k, n in (h or {}).get("counts", {}).items():
+            ctx.coverage[prefix + k] = ctx.coverage.get(prefix + k, 0) + n
+
+
+def c04(ctx):
+    sm_check(ctx, n_quick=200, extra={"hook": "c04", "record_env": True})
+    keep_only(ctx, lambda v: not v["kind"].startswith("outcome:") and not v["kind"].startswith("state:"))
+    _merge_hook(ctx, "c04_")
+
+
+def c18(ctx):
+    sm_check(ctx, n_quick=200, extra={"hook": "c18", "record_mw": True, "record_env": True,
+                                      "ps": (0.1, 0.5, 0.3, 0.8), "trunc_p": 0.6})
+    keep_only(ctx, lambda v: not v["kind"].startswith("outcome:") and not v["kind"].startswith("state:"))
+    _merge_hook(ctx, "c18_")
+
+
 TABLE = {
     "C01": c_generic, "C02": c_generic, "C03": c_generic, "C05": c05, "C07": c_generic, "C08": c_generic,
-    "C09": c_generic, "C10": c_generic, "C11": c11, "C12": c_generic, "C20": c20,
+    "C09": c_generic, "C10": c_generic, "C11": c11, "C12": c_generic, "C20": c20, "C04": c04, "C18": c18,
 }
